@@ -177,6 +177,9 @@ inline void TypedArgCallableValue::dump( std::ostream& os) const
 inline void TypedArgCallableValue::assign( const std::string& value,
    bool inverted)
 {
+   // like all other arguments that accept a value: first apply the checks
+   // that were added through addCheck()
+   check( value);
    mFun( value, inverted);
    mWasCalled = true;
 } // TypedArgCallableValue::assign
